@@ -220,7 +220,7 @@ contract(SC + '.check_signature',
          ensures=[('same-item', 'result == item'),
                   ('C01-verified', 'implies(truthy(item.id), SIG_OK(self, origdoc, item, node_name, issuer))')],
          raises={'Exception': 'True'}, modifies=[],
-         clauses_from={'C01': ['C01-verified'], 'C03': ['C01-verified']})
+         clauses_from={'C01': ['C01-verified'], 'C03': ['C01-verified'], 'C20': ['C01-verified']})
 
 contract(SC + '.correctly_signed_response',
          types={'decoded_xml': 'Union(Str, Bytes)', 'must': 'Any', 'origdoc': 'Any', 'only_valid_cert': 'Any',
@@ -232,7 +232,7 @@ contract(SC + '.correctly_signed_response',
                                    "SIG_OK(self, decoded_xml, result, cname(result), None))")],
          raises={'TypeError': 'True', 'SigverError': 'True', 'Exception': 'True'},
          modifies=[],
-         clauses_from={'C01': ['C01-verified'], 'C02': ['C02-required', 'C01-verified']})
+         clauses_from={'C01': ['C01-verified'], 'C02': ['C02-required', 'C01-verified'], 'C20': ['C01-verified']})
 
 
 # ---- requests and other non-response messages: one specialised variant of correctly_signed_message per message type
